@@ -1,5 +1,6 @@
 //! C07 (Vanilla), C08 (TBC), C09 (Wrath): stream-cipher monitors with online reference models.
 use crate::objs;
+use crate::faultio::{Fail, FragReader, FragWriter};
 use crate::util::*;
 use wow_srp::{tbc_header, vanilla_header, wrath_header};
 
@@ -10,6 +11,10 @@ pub trait AddObj: Clone + PartialEq + Send {
     /// header-sized chunks may go through the typed helpers (wire layout: size big-endian, opcode little-endian)
     fn enc_typed(&mut self, d: &mut [u8]);
     fn dec_typed(&mut self, d: &mut [u8]);
+    /// ... or through the Write / Read wrappers with a sink that takes short writes / a source that delivers fragments
+    /// (both optionally interrupted). false = the wrapper returned an error (C11 owns that verdict; the stream is abandoned).
+    fn enc_io(&mut self, d: &mut [u8], cuts: u32, intr: bool) -> bool;
+    fn dec_io(&mut self, d: &mut [u8], cuts: u32, intr: bool) -> bool;
 }
 
 macro_rules! typed_impl {
@@ -39,6 +44,51 @@ macro_rules! typed_impl {
             } else {
                 self.decrypt(d)
             }
+        }
+        fn enc_io(&mut self, d: &mut [u8], cuts: u32, intr: bool) -> bool {
+            let mut w = FragWriter::new(d.len(), cuts, intr, Fail::None);
+            let r = if d.len() == 4 {
+                self.write_encrypted_server_header(&mut w, u16::from_be_bytes([d[0], d[1]]), u16::from_le_bytes([d[2], d[3]]))
+            } else if d.len() == 6 {
+                self.write_encrypted_client_header(&mut w, u16::from_be_bytes([d[0], d[1]]), u32::from_le_bytes([d[2], d[3], d[4], d[5]]))
+            } else {
+                self.encrypt(d);
+                return true;
+            };
+            if r.is_err() {
+                return false;
+            }
+            // whatever reached the sink is what is on the wire (a short sink content shows up as a ciphertext difference)
+            for (i, b) in d.iter_mut().enumerate() {
+                *b = w.sink.get(i).copied().unwrap_or(!*b);
+            }
+            true
+        }
+        fn dec_io(&mut self, d: &mut [u8], cuts: u32, intr: bool) -> bool {
+            let src = d.to_vec();
+            let mut rd = FragReader::new(&src, src.len(), cuts, intr, Fail::Eof);
+            if d.len() == 4 {
+                match self.read_and_decrypt_server_header(&mut rd) {
+                    Ok(h) => {
+                        let s = h.size.to_be_bytes();
+                        let o = h.opcode.to_le_bytes();
+                        d.copy_from_slice(&[s[0], s[1], o[0], o[1]]);
+                    }
+                    Err(_) => return false,
+                }
+            } else if d.len() == 6 {
+                match self.read_and_decrypt_client_header(&mut rd) {
+                    Ok(h) => {
+                        let s = h.size.to_be_bytes();
+                        let o = h.opcode.to_le_bytes();
+                        d.copy_from_slice(&[s[0], s[1], o[0], o[1], o[2], o[3]]);
+                    }
+                    Err(_) => return false,
+                }
+            } else {
+                self.decrypt(d);
+            }
+            true
         }
     };
 }
@@ -193,19 +243,35 @@ fn add_stream<O: AddObj>(
     model_enc.enc(&mut want);
     let mut wire = plain.to_vec();
     let replay = format!("stream {} {} {}", hex(k), pseed, plain.len());
-    // every other header-sized chunk goes through the typed helper instead of the raw call
-    let mut flip = pseed & 1 == 1;
+    // header-sized chunks take turns: raw call, typed helper, Write wrapper with a sink that takes short writes
+    let mut route = (pseed % 3) as u32;
+    let mut io_err = 0u64;
+    let mut io_calls = 0u64;
     let r = guard(|| {
         chunked(&mut rs, &mut wire, |c| {
             if c.len() == 4 || c.len() == 6 {
-                flip = !flip;
-                if flip {
+                route = (route + 1) % 3;
+                if route == 1 {
                     return sender.enc_typed(c);
+                }
+                if route == 2 {
+                    io_calls += 1;
+                    let cuts = (pseed >> 7) as u32 ^ io_calls as u32;
+                    if !sender.enc_io(c, cuts & 0x3f, cuts & 0x40 != 0) {
+                        io_err += 1;
+                    }
+                    return;
                 }
             }
             sender.enc(c)
         })
     });
+    rep.count("headers_through_write_wrapper_with_short_writes", io_calls);
+    if io_err > 0 {
+        // an error for a sink that merely takes short writes: C11 decides that; nothing more can be said about this stream
+        rep.count("info_write_wrapper_error_stream_abandoned", 1);
+        return false;
+    }
     let (calls, empty) = match r {
         Ok(x) => x,
         Err(e) => {
@@ -225,18 +291,33 @@ fn add_stream<O: AddObj>(
         return false;
     }
     let mut back = wire.clone();
-    let mut flip2 = pseed & 2 == 2;
+    let mut route2 = ((pseed / 3) % 3) as u32;
+    let mut io_err2 = 0u64;
+    let mut io_calls2 = 0u64;
     let r = guard(|| {
         chunked(&mut rr, &mut back, |c| {
             if c.len() == 4 || c.len() == 6 {
-                flip2 = !flip2;
-                if flip2 {
+                route2 = (route2 + 1) % 3;
+                if route2 == 1 {
                     return receiver.dec_typed(c);
+                }
+                if route2 == 2 {
+                    io_calls2 += 1;
+                    let cuts = (pseed >> 11) as u32 ^ io_calls2 as u32;
+                    if !receiver.dec_io(c, cuts & 0x3f, cuts & 0x40 != 0) {
+                        io_err2 += 1;
+                    }
+                    return;
                 }
             }
             receiver.dec(c)
         })
     });
+    rep.count("headers_through_read_wrapper_with_fragments", io_calls2);
+    if io_err2 > 0 {
+        rep.count("info_read_wrapper_error_stream_abandoned", 1);
+        return false;
+    }
     match r {
         Ok((calls, empty)) => {
             rep.count("decrypt_calls", calls);
@@ -619,6 +700,141 @@ pub fn replay_add<O: AddObj>(kind: AddKind<O>, args: &[String]) -> Rep {
 // ---------------------------------------------------------------------------
 // C09 Wrath
 
+/// Header-shaped chunks of Wrath traffic take turns between the raw call, the typed helper and the Write / Read wrapper
+/// (sink taking short writes, source delivering fragments, both now and then interrupted). `io_failed` is set when a
+/// wrapper returns an error although the sink / source does not fail (C11 owns that verdict; the direction is abandoned).
+struct WRoute {
+    n: u32,
+    salt: u32,
+    io_calls: u64,
+    typed_calls: u64,
+    io_failed: bool,
+}
+
+impl WRoute {
+    fn new(salt: u64) -> Self {
+        Self { n: (salt % 3) as u32, salt: (salt >> 9) as u32, io_calls: 0, typed_calls: 0, io_failed: false }
+    }
+    fn next(&mut self) -> (u32, u32, bool) {
+        self.n = (self.n + 1) % 3;
+        let cuts = self.salt ^ self.n.wrapping_mul(0x9E37) ^ (self.io_calls as u32).wrapping_mul(7);
+        (self.n, cuts & 0x3f, cuts & 0x40 != 0)
+    }
+    fn client_enc(&mut self, o: &mut wrath_header::ClientCrypto, c: &mut [u8]) {
+        if c.len() != 6 || self.io_failed {
+            return o.encrypt(c);
+        }
+        let (size, opcode) = (u16::from_be_bytes([c[0], c[1]]), u32::from_le_bytes([c[2], c[3], c[4], c[5]]));
+        match self.next() {
+            (1, _, _) => {
+                self.typed_calls += 1;
+                let h = o.encrypt_client_header(size, opcode);
+                c.copy_from_slice(&h);
+            }
+            (2, cuts, intr) => {
+                self.io_calls += 1;
+                let mut w = FragWriter::new(6, cuts, intr, Fail::None);
+                if o.write_encrypted_client_header(&mut w, size, opcode).is_err() {
+                    self.io_failed = true;
+                    return;
+                }
+                for (i, b) in c.iter_mut().enumerate() {
+                    *b = w.sink.get(i).copied().unwrap_or(!*b);
+                }
+            }
+            _ => o.encrypt(c),
+        }
+    }
+    fn server_dec(&mut self, o: &mut wrath_header::ServerCrypto, c: &mut [u8]) {
+        if c.len() != 6 || self.io_failed {
+            return o.decrypt(c);
+        }
+        let put = |c: &mut [u8], size: u16, opcode: u32| {
+            let (s, op) = (size.to_be_bytes(), opcode.to_le_bytes());
+            c.copy_from_slice(&[s[0], s[1], op[0], op[1], op[2], op[3]]);
+        };
+        match self.next() {
+            (1, _, _) => {
+                self.typed_calls += 1;
+                let h = o.decrypt_client_header([c[0], c[1], c[2], c[3], c[4], c[5]]);
+                put(c, h.size, h.opcode);
+            }
+            (2, cuts, intr) => {
+                self.io_calls += 1;
+                let src = c.to_vec();
+                let mut rd = FragReader::new(&src, 6, cuts, intr, Fail::Eof);
+                match o.read_and_decrypt_client_header(&mut rd) {
+                    Ok(h) => put(c, h.size, h.opcode),
+                    Err(_) => self.io_failed = true,
+                }
+            }
+            _ => o.decrypt(c),
+        }
+    }
+    /// a chunk that has the shape of a server header: 4 bytes with the marker bit clear, or 5 bytes with it set
+    fn server_shape(c: &[u8]) -> Option<(u32, u16)> {
+        if c.len() == 4 && c[0] & 0x80 == 0 {
+            Some((u32::from_be_bytes([0, 0, c[0], c[1]]), u16::from_le_bytes([c[2], c[3]])))
+        } else if c.len() == 5 && c[0] & 0x80 != 0 && (c[0] & 0x7f != 0 || c[1] & 0x80 != 0) {
+            Some((u32::from_be_bytes([0, c[0] & 0x7f, c[1], c[2]]), u16::from_le_bytes([c[3], c[4]])))
+        } else {
+            None
+        }
+    }
+    fn server_enc(&mut self, o: &mut wrath_header::ServerCrypto, c: &mut [u8]) {
+        let sh = if self.io_failed { None } else { Self::server_shape(c) };
+        let (size, opcode) = match sh {
+            Some(x) => x,
+            None => return o.encrypt(c),
+        };
+        match self.next() {
+            (1, _, _) => {
+                self.typed_calls += 1;
+                let h = o.encrypt_server_header(size, opcode).to_vec();
+                for (i, b) in c.iter_mut().enumerate() {
+                    *b = h.get(i).copied().unwrap_or(!*b);
+                }
+            }
+            (2, cuts, intr) => {
+                self.io_calls += 1;
+                let mut w = FragWriter::new(c.len(), cuts, intr, Fail::None);
+                if o.write_encrypted_server_header(&mut w, size, opcode).is_err() {
+                    self.io_failed = true;
+                    return;
+                }
+                for (i, b) in c.iter_mut().enumerate() {
+                    *b = w.sink.get(i).copied().unwrap_or(!*b);
+                }
+            }
+            _ => o.encrypt(c),
+        }
+    }
+    fn client_dec(&mut self, o: &mut wrath_header::ClientCrypto, c: &mut [u8], plain_shape: bool) {
+        // the receiver cannot know the shape from ciphertext; the caller tells whether the sender's chunking produced a
+        // header-shaped plaintext here (only then the read-based call consumes exactly this chunk)
+        if !plain_shape || self.io_failed {
+            return o.decrypt(c);
+        }
+        match self.next() {
+            (2, cuts, intr) | (1, cuts, intr) => {
+                self.io_calls += 1;
+                let src = c.to_vec();
+                let mut rd = FragReader::new(&src, src.len(), cuts, intr, Fail::Eof);
+                match o.read_and_decrypt_server_header(&mut rd) {
+                    Ok(h) => {
+                        let l = crate::c10::layout(h.size, h.opcode);
+                        for (i, b) in c.iter_mut().enumerate() {
+                            *b = l.get(i).copied().unwrap_or(!*b);
+                        }
+                    }
+                    Err(_) => self.io_failed = true,
+                }
+            }
+            _ => o.decrypt(c),
+        }
+    }
+}
+
 fn wrath_dir(
     rep: &mut Rep,
     k: &[u8; 40],
@@ -629,6 +845,7 @@ fn wrath_dir(
     pseed: u64,
     dir: &str,
     offset: u64,
+    abandoned: &dyn Fn() -> bool,
 ) -> bool {
     let mut rs = Rng::new(pseed, 1);
     let mut rr = Rng::new(pseed, 2);
@@ -645,6 +862,10 @@ fn wrath_dir(
             rep.violation("c09:panic:encrypt", format!("encrypt panicked: {}", e), replay);
             return false;
         }
+    }
+    if abandoned() {
+        rep.count("info_write_wrapper_error_direction_abandoned", 1);
+        return false;
     }
     rep.count("bytes_compared_with_model", plain.len() as u64);
     if let Some(i) = first_diff(&wire, &want) {
@@ -665,6 +886,10 @@ fn wrath_dir(
             rep.violation("c09:panic:decrypt", format!("decrypt panicked: {}", e), replay);
             return false;
         }
+    }
+    if abandoned() {
+        rep.count("info_read_wrapper_error_direction_abandoned", 1);
+        return false;
     }
     if let Some(i) = first_diff(&back, plain) {
         rep.violation(
@@ -721,15 +946,45 @@ fn wrath_connection(rep: &mut Rep, k: [u8; 40], rng: &mut Rng, total_len: usize,
         left -= len;
         let plain = rng.bytes(len);
         let ps = rng.next();
+        let rt = std::cell::RefCell::new(WRoute::new(ps));
         let ok = if rng.chance(1, 2) {
-            let r = wrath_dir(rep, &k, &plain, |c| client.encrypt(c), |c| server.decrypt(c), &mut m_c2s, ps, "c2s", off_c);
+            let r = wrath_dir(
+                rep,
+                &k,
+                &plain,
+                |c| rt.borrow_mut().client_enc(&mut client, c),
+                |c| rt.borrow_mut().server_dec(&mut server, c),
+                &mut m_c2s,
+                ps,
+                "c2s",
+                off_c,
+                &|| rt.borrow().io_failed,
+            );
             off_c += len as u64;
             r
         } else {
-            let r = wrath_dir(rep, &k, &plain, |c| server.encrypt(c), |c| client.decrypt(c), &mut m_s2c, ps, "s2c", off_s);
+            let mut doff = 0usize;
+            let r = wrath_dir(
+                rep,
+                &k,
+                &plain,
+                |c| rt.borrow_mut().server_enc(&mut server, c),
+                |c| {
+                    let shape = WRoute::server_shape(&plain[doff..doff + c.len()]).is_some();
+                    doff += c.len();
+                    rt.borrow_mut().client_dec(&mut client, c, shape)
+                },
+                &mut m_s2c,
+                ps,
+                "s2c",
+                off_s,
+                &|| rt.borrow().io_failed,
+            );
             off_s += len as u64;
             r
         };
+        rep.count("header_shaped_chunks_through_typed_helpers", rt.borrow().typed_calls);
+        rep.count("header_shaped_chunks_through_read_write_wrappers", rt.borrow().io_calls);
         rep.ev(1);
         if !ok {
             return;
